@@ -280,6 +280,35 @@ example : String.ofList (showLine Gen.vanillaRows Gen.syms
     (applyIUpds ⟨"core.JmpInstruction", [.imm 3]⟩ [IUpd.observe, IUpd.setOp 0 (.imm (-7)), IUpd.observe]))
     = "jmp -7" := by decide +kernel
 
+/-! ### Flavours beyond the three stock ones
+
+`Flavour.__init__` fills `id_map` / `name_map` with the core classes and then `update`s them
+with the flavour-specific list: the LAST class with a mnemonic (opcode) wins. `nameMap` /
+`idMap` (`lastBy`) model exactly that for any table, so every theorem above that is stated for
+an arbitrary `T` covers user flavours. When a user flavour appends a class that re-uses a
+mnemonic, the shadowed class can no longer be written in text; the statement for such tables
+is per instruction: -/
+
+/-- any table, including tables in which some rows are shadowed: the instructions whose own
+row satisfies `rowTextOk` (its mnemonic resolves to it — it is the last row with that
+mnemonic) print and parse back unchanged -/
+theorem parse_print_rows (T : Table) (S : Syms) (generic : List String) (exc : List (String × Nat))
+    (hS : symsOk S = true) (is : List Instr)
+    (h : ∀ i ∈ is, ∃ row, rowOf T i.cls = some row ∧ rowTextOk T exc generic row = true ∧
+      InRangeOps row.shape i.ops = true) :
+    parseText T S generic exc (is.map (showLine T S)) = .ok is :=
+  parseText_show_rows T S generic exc hS is h
+
+/-- a user flavour `NVFlavour + [MyRotX]` where `MyRotX` re-uses mnemonic `rot_x` and opcode 27:
+the text `rot_x Q0 1 2` and the opcode 27 both resolve to the appended class (last wins) -/
+theorem custom_flavour_last_wins :
+    let T := Gen.nvRows ++ [⟨"user.MyRotX", 27, "rot_x", [.reg, .imm8, .imm8]⟩]
+    (nameMap T "rot_x").map (·.cls) = some "user.MyRotX" ∧ (idMap T 27).map (·.cls) = some "user.MyRotX" ∧
+    rowTextOk T Gen.replaceExceptions Gen.genericNames ⟨"user.MyRotX", 27, "rot_x", [.reg, .imm8, .imm8]⟩ = true ∧
+    (match parseText T Gen.syms Gen.genericNames Gen.replaceExceptions ["rot_x Q0 1 2".toList] with
+      | .ok is => is == [⟨"user.MyRotX", [.reg ⟨2, 0⟩, .imm 1, .imm 2]⟩]
+      | .error _ => false) = true := by decide +kernel
+
 /-! Non-vacuity -/
 
 -- a concrete printed line, and its parse
